@@ -1,26 +1,84 @@
-"""Architecture graph suite (C13): ArchApp.Analysis, MergeHeaderFile, ToMapDot, `coca arch`."""
+"""Architecture graph suite (C13): ArchApp.Analysis, MergeHeaderFile, ToMapDot, `coca arch`.
+
+Machine: spec/Arch.tla (EXTENDS ArchRef). Reference / oracle: spec/ArchRef.tla via Arch_Trace.
+Cases: every abstract input explored by TLC in the emitting cfgs (sampled in the quick tier), seeded random
+models from the harness, and a few fixed regression shapes. One case in six of the TLC cases (and one in
+four of the random ones) is executed through the coca binary (`coca arch -x .. -H -P`), the others in process.
+"""
 
 TRACE = ("Arch_Trace", "Arch_Trace.cfg")
 PROPS = ["C13_NodesExact", "C13_EdgesExact", "C13_QuotientExact", "C13_DotEdgesBetweenDisplayed", "C13_EachTypeOnce",
-         "C13_Reference"]
+         "C13_Reference", "C13_MergeNoSelfLoop", "C13_MergeBetweenNodes"]
 
 
 def plan(pid, tier, seed):
     quick = tier == "quick"
-    mc = []
+    if quick:
+        mc = [
+            {"module": "Arch", "cfg": "Arch_MC_quick.cfg", "emit": True, "sample": 1500, "properties": PROPS, "timeout": 600},
+            {"module": "Arch", "cfg": "Arch_MC_merge_quick.cfg", "emit": True, "sample": 1500, "properties": PROPS, "timeout": 600},
+        ]
+    else:
+        mc = [
+            {"module": "Arch", "cfg": "Arch_MC_quick.cfg", "emit": True, "sample": 12000, "properties": PROPS, "timeout": 900},
+            {"module": "Arch", "cfg": "Arch_MC_merge_quick.cfg", "emit": True, "sample": 26000, "properties": PROPS, "timeout": 900},
+            {"module": "Arch", "cfg": "Arch_Gen_nested.cfg", "emit": True, "sample": 24000, "properties": PROPS, "timeout": 900},
+            {"module": "Arch", "cfg": "Arch_MC_thorough.cfg", "emit": False, "properties": PROPS, "timeout": 2400},
+            {"module": "Arch", "cfg": "Arch_MC_rel2.cfg", "emit": False, "properties": PROPS, "timeout": 2400},
+            {"module": "Arch", "cfg": "Arch_MC_nested.cfg", "emit": False, "properties": PROPS, "timeout": 2400, "coverage": True},
+        ]
     return {
         "harness": "arch",
         "needs_coca": True,
         "mc": mc,
         "gen": [],
-        "rand": 600 if quick else 20000,
+        "rand": 600 if quick else 15000,
         "trace": TRACE,
     }
 
 
 def case_from_tlc(obj, h, g):
     inp = obj["input"]
+    # ToJson of an empty sequence is [], which is what the harness expects everywhere
+    inp["via"] = "cli" if int(h[:6], 16) % 6 == 0 else "api"
     return {"case": "tlc-" + h, "input": inp}
+
+
+def _t(pkg, name, impls=(), ext="", fields=(), calls=(), main_calls=()):
+    ms = []
+    if calls:
+        ms.append({"name": "run", "calls": [{"pkg": p, "node": n} for p, n in calls]})
+    if main_calls:
+        ms.append({"name": "main", "calls": [{"pkg": p, "node": n} for p, n in main_calls]})
+    return {"pkg": list(pkg), "name": name, "impls": list(impls), "ext": ext,
+            "fields": [{"pkg": p, "node": n} for p, n in fields], "methods": ms}
+
+
+def fixed_cases(pid, tier, seed):
+    """Regression shapes (abstract inputs only; the Reference decides what is right)."""
+    shapes = {
+        # merged relations whose ends concatenate to the same string: a+bb = ab+b, b+bb = bb+b
+        "collide-4": [_t(["a"], "A", fields=[("bb", "B")]), _t(["ab"], "A", fields=[("b", "B")]), _t(["b"], "B"), _t(["bb"], "B")],
+        "collide-2": [_t(["b"], "B", fields=[("bb", "B")]), _t(["bb"], "B", calls=[("b", "B")])],
+        "collide-top": [_t(["a", "x"], "A", fields=[("bb.y", "B")]), _t(["ab", "x"], "A", ext="b.y.B"), _t(["b", "y"], "B"), _t(["bb", "y"], "B")],
+        # relations that leave the graph: Main, an absent type of a project package, a library type
+        "leaving": [_t(["a"], "A", fields=[("b", "Main")], impls=["b.Gone", "java.io.Serializable"], ext="x.E"),
+                    _t(["b"], "B"), _t(["b"], "Main", fields=[("a", "A")], calls=[("a", "A")])],
+        # every kind of relation, self relations, main method
+        "kinds": [_t(["a"], "A", impls=["a.I"], ext="b.B", fields=[("a", "A")], calls=[("a", "A"), ("b", "C"), ("x", "E")], main_calls=[("b", "D")]),
+                  _t(["a"], "I"), _t(["b"], "B"), _t(["b"], "C"), _t(["b"], "D", calls=[("a", "Main")]), _t(["a"], "Main", fields=[("b", "B")])],
+        # nested packages and the unnamed package
+        "nested": [_t(["a"], "A", fields=[("a.b", "B")]), _t(["a", "b"], "B", fields=[("", "C")]), _t([], "C", fields=[("a", "A")], impls=["D"]),
+                   _t([], "D", ext=".C")],
+    }
+    out = []
+    for name, types in sorted(shapes.items()):
+        for mh, mp in ((False, False), (True, False), (False, True), (True, True)):
+            for flt in ([], ["a"], ["b.", "B"]):
+                for via in ("api", "cli"):
+                    out.append({"case": "fixed-%s-%d%d-%s-%s" % (name, mh, mp, "_".join(flt) or "all", via),
+                                "input": {"types": types, "filter": flt, "mergeH": mh, "mergeP": mp, "via": via}})
+    return out
 
 
 def nontrivial(rec):
@@ -29,3 +87,15 @@ def nontrivial(rec):
         if t["impls"] or t["ext"] or t["fields"] or any(m["calls"] for m in t["methods"]):
             return True
     return False
+
+
+def extra_evidence(records):
+    via = {}
+    modes = {}
+    for r in records:
+        i = r["input"]
+        via[i["via"]] = via.get(i["via"], 0) + 1
+        m = ("H" if i["mergeH"] else "") + ("P" if i["mergeP"] else "") or "none"
+        modes[m] = modes.get(m, 0) + 1
+    return {"records_by_driver": via, "records_by_merge_setting": modes,
+            "filtered_records": sum(1 for r in records if r["input"]["filter"])}
